@@ -9,6 +9,7 @@ from .rules.token import rule_token
 from .rules.graph import rule_keys, rule_order, rule_cover
 from .rules import misc as M
 from .rules.lazyrule import rule_lazy
+from .rules.pickle_nondet import rule_pickle, rule_nondet, rule_fillflow
 
 PROPERTIES = {
     "C01": {
@@ -21,12 +22,13 @@ PROPERTIES = {
         "explanation": "R-DISPATCH over (kernel, engine) resolutions and engine-module bindings; R-STABLE over argsort sites",
     },
     "C05": {
-        "rules": [rule_truthy, rule_parallel],
+        "rules": [rule_truthy, rule_fillflow, rule_parallel],
         "technique": "def-use fill-family + boolean-context scan; counter-wiring table check (custom AST checker)",
         "level_text": "Static, all-paths: no fill-value-typed expression (nor the optional min_count) is ever coerced to bool, so falsy "
                       "fills (0, 0.0, False) cannot be confused with 'not given'; the validity counter that implements min_count extends "
-                      "every parallel tuple. Slot order, mask placement per plan and min_count arithmetic are not decided.",
-        "explanation": "R-TRUTHY over every boolean context of every function; R-PARALLEL over the min_count branch",
+                      "every parallel tuple; the fill written by the finalizer's mask, by its reindex and by the final reindex "
+                      "derives only from the user's fill_value. Slot order, mask placement per plan and min_count arithmetic are not decided.",
+        "explanation": "R-TRUTHY over every boolean context of every function; R-FILLFLOW over the fill sinks; R-PARALLEL over the min_count branch",
     },
     "C12": {
         "rules": [rule_lazy],
@@ -38,12 +40,13 @@ PROPERTIES = {
         "explanation": "R-LAZY",
     },
     "C13": {
-        "rules": [rule_pure],
+        "rules": [rule_pure, rule_pickle, rule_nondet],
         "technique": "interprocedural origins (may-alias) dataflow over the CFG with function summaries; derived task roots",
         "level_text": "Static, all-paths: no function reachable from a graph-embedded callable writes through a parameter, a view or "
                       "alias of one, or an object inside one (subscript/attribute stores, augmented assignment, out=, in-place "
-                      "methods, np.put & co), judged at the task roots through function summaries.",
-        "explanation": "R-PURE",
+                      "methods, np.put & co), judged at the task roots through function summaries; no task-reachable identity test against a sentinel "
+                      "that pickles by value and nothing unpicklable is embedded; no nondeterminism source in task-reachable code.",
+        "explanation": "R-PURE, R-PICKLE, R-NONDET",
     },
     "C14": {
         "rules": [rule_args, rule_global, rule_memo, rule_token],
